@@ -278,6 +278,85 @@ func c20AddrTaint(c *Ctx, p *Prog, rule string) {
 		}
 	}
 
+	// errors of library parsers that are not net.Errors quote their input: handed address text, their error
+	// must not travel on (ElideError would print it verbatim)
+	ob3 := c.Obl(rule, "foreign-parse-errors#address-free", "no error returned by a library routine outside net, net/url, net/http and x/net/proxy that was handed address text is used beyond a nil test: such errors quote their input and are not net.Errors")
+	nf := 0
+	for _, fn := range fns {
+		allInstrs(fn, func(in ssa.Instruction) {
+			call, ok := in.(*ssa.Call)
+			if !ok || ob3.Verdict == Violated {
+				return
+			}
+			cm := call.Common()
+			var pkg *types.Package
+			if cm.IsInvoke() {
+				pkg = cm.Method.Pkg()
+			} else if sc := cm.StaticCallee(); sc != nil && sc.Pkg != nil {
+				pkg = sc.Pkg.Pkg
+			}
+			if pkg == nil || isModulePkg(pkg) {
+				return
+			}
+			switch pkg.Path() {
+			case "net", "net/url", "net/http", "golang.org/x/net/proxy", "fmt", "errors":
+				return
+			case "gitlab.torproject.org/tpo/anti-censorship/pluggable-transports/goptlib":
+				// pt.DialOr sends the client address to tor in a USERADDR command; its errors are those of
+				// the ORPort dial and of the socket writes (net.OpError), none is built from the address
+				return
+			}
+			if isDialSig(cm.Signature()) {
+				return
+			}
+			res := cm.Signature().Results()
+			ei := -1
+			for i := 0; i < res.Len(); i++ {
+				if isErrorType(res.At(i).Type()) {
+					ei = i
+				}
+			}
+			if ei < 0 {
+				return
+			}
+			src := ""
+			for _, a := range cm.Args {
+				if bt, ok := a.Type().Underlying().(*types.Basic); ok && bt.Info()&types.IsString != 0 {
+					if s := t.carries(a, 0, map[ssa.Value]bool{}); s != "" {
+						src = s
+					}
+				}
+			}
+			if src == "" {
+				return
+			}
+			nf++
+			var uses []ssa.Instruction
+			if res.Len() == 1 {
+				uses = *call.Referrers()
+			} else {
+				for _, r := range *call.Referrers() {
+					if ex, ok := r.(*ssa.Extract); ok && ex.Index == ei {
+						uses = append(uses, *ex.Referrers()...)
+					}
+				}
+			}
+			for _, u := range uses {
+				if bo, ok := u.(*ssa.BinOp); ok && (isNilConst(bo.X) || isNilConst(bo.Y)) {
+					continue
+				}
+				if _, ok := u.(*ssa.DebugRef); ok {
+					continue
+				}
+				ob3.At(p.InstrPos(call)).Violate("%s in %s is handed %s and its error (which quotes the input and is no net.Error) is used beyond a nil test", p.CalleeID(cm), p.FuncKey(fn), src)
+				return
+			}
+		})
+	}
+	if ob3.Verdict != Violated {
+		ob3.HoldNT("%d library call(s) take address text and return an error; none of those errors is used", nf)
+	}
+
 	// the unscrubbed SOCKS-handshake log site: nothing the socks5 package returns may be an error the net
 	// package built from the requested target
 	ob2 := c.Obl(rule, "common/socks5#errors-are-local", "the SOCKS handshake error is logged without scrubbing (R5 exemption: local exchange with tor); no error produced by a net routine from an address is used in package common/socks5")
